@@ -183,6 +183,18 @@ type ledgerEnt struct {
 func runMesh(s *sim) {
 	w := newNodeWorld(s)
 	p := w.plan
+	if p.Prop == "C08" {
+		// The two-GRAFT variation belongs to C07 only: the back-off ledger of C08 does not model the
+		// refusals (PRUNE, extension, flood window) of a `graft2` item, and a ledger that misses a PRUNE
+		// the node sent expects a single penalty where a double one is due. For C08 those items are
+		// ordinary single GRAFTs and scores are the planned ones, as before.
+		p.Knobs["behaviour_weight"] = 0
+		for k := range p.Items {
+			if it := &p.Items[k]; it.Op == "graft2" {
+				*it = Item{Op: "graft", A: []int64{it.A[0], it.A[1]}}
+			}
+		}
+	}
 	if err := w.startNode(); err != nil {
 		s.violate("SIM", "setup", "SIM/setup", "node creation failed: %v", err)
 		return
@@ -717,6 +729,10 @@ func runMesh(s *sim) {
 		wireC08()
 		if prop != "C07" {
 			return
+		}
+		if it.Op == "graft2" && sender != nil && accepted(sender) && score(pre, sender.id) >= 0 && score(post, sender.id) < 0 {
+			// the trigger of the two-GRAFT rule below was met (on a correct tree the second GRAFT is refused)
+			s.probe("graft2_score_turned_negative_inside_rpc")
 		}
 		// admission / unexplained changes
 		for t, Q := range post.mesh {
